@@ -129,6 +129,11 @@ func runFlow(p flowPlan) (res flowResult, base int) {
 		for i, n := range nodes {
 			sb := &symbol.Symbol{Spec: &spec.Meta{ID: uuid.Must(uuid.NewV7()), Kind: "verif", Namespace: "default", Name: fmt.Sprintf("n%d", i)}, Node: n}
 			syms = append(syms, sb)
+			// Agent.Load hooks the ports listed by Symbol.Ins() / Outs(), and those list only ports
+			// that were looked up before: look them up, as the symbol table's linking does.
+			sb.In(node.PortIn)
+			sb.Out(node.PortOut)
+			sb.Out(node.PortError)
 			_ = agent.Load(sb)
 		}
 	}
@@ -242,9 +247,23 @@ func runFlow(p flowPlan) (res flowResult, base int) {
 func runFlows(c *lib.Ctx, rng *lib.RNG, fails *[]lib.OracleFail) {
 	n := c.Scale(50, 500)
 	perClass := map[string]int{}
+	// regression witnesses first: (1) one node, one request blocked inside the action, Exit, with the
+	// agent attached – Reader.Close hands the dropped response to the agent's packet hook after the
+	// agent's own exit hook has already forgotten the process (Agent.Frames kept 1 frame forever
+	// before the fix "the agent does not record frames for a process it has already forgotten")
+	fixed := []flowPlan{
+		{nodes: 1, requests: 1, agent: true, abort: true, blockAt: 0},
+		{nodes: 1, requests: 2, agent: true, abort: true, blockAt: 0, abandon: true},
+		{nodes: 2, requests: 1, agent: true, abort: true, blockAt: 1, errPath: true},
+	}
 	for i := 0; i < n; i++ {
-		p := flowPlan{nodes: rng.Range(1, 3), requests: rng.Range(1, 4), agent: rng.Bool(), abort: rng.Chance(3, 5), exitFrom: rng.Intn(2), errPath: rng.Chance(1, 4), abandon: rng.Chance(1, 4)}
-		p.blockAt = rng.Intn(p.nodes)
+		var p flowPlan
+		if i < len(fixed) {
+			p = fixed[i]
+		} else {
+			p = flowPlan{nodes: rng.Range(1, 3), requests: rng.Range(1, 4), agent: rng.Bool(), abort: rng.Chance(3, 5), exitFrom: rng.Intn(2), errPath: rng.Chance(1, 4), abandon: rng.Chance(1, 4)}
+			p.blockAt = rng.Intn(p.nodes)
+		}
 		r, base := runFlow(p)
 		c.Count("flow:" + p.String())
 		c.Hit(fmt.Sprintf("flow-abort-%v-agent-%v", p.abort, p.agent))
